@@ -38,6 +38,7 @@ from explorerscript.ssb_converting.ssb_special_ops import (
     SsbLabelJump,
     OPS_THAT_END_CONTROL_FLOW,
     OP_DUMMY_END,
+    OP_JUMP,
     OPS_CTX,
 )
 from explorerscript.util import f, _
@@ -252,10 +253,16 @@ def routine_op_offsets_are_ordered(routine_ops: list[list[SsbOperation]]) -> boo
     return True
 
 
-def strip_last_label(routine_ops: list[list[SsbOperation]]) -> list[list[SsbOperation]]:
+def strip_last_label(
+    routine_ops: list[list[SsbOperation]],
+    counter_ops: Counter | None = None,
+    source_map_builder: SourceMapBuilder | None = None,
+) -> list[list[SsbOperation]]:
     """
     Checks if the last opcode of a routine is a label, and if so
     removes it. if there are jumps to it, they are removed and replaced with an OP_DUMMY_END.
+    If an op that only jumps conditionally (branch, case, call) targets the label, the label is kept
+    and an OP_DUMMY_END is appended for it instead (using counter_ops and source_map_builder, if given).
     """
     logger.debug("Stripping last label...")
     returned_routine_ops = []
@@ -269,6 +276,22 @@ def strip_last_label(routine_ops: list[list[SsbOperation]]) -> list[list[SsbOper
             while isinstance(routine[-1], SsbLabel):
                 indices_to_remove = set()
                 label = routine[-1]
+                conditional_jumps = [
+                    op
+                    for op in routine
+                    if isinstance(op, SsbLabelJump) and op.label == label and op.root.op_code.name != OP_JUMP
+                ]
+                if len(conditional_jumps) > 0:
+                    # These ops continue with the next op if they don't jump, so they can't be replaced with
+                    # an OP_DUMMY_END. Give them something to jump to instead.
+                    if counter_ops is not None:
+                        end_offset = counter_ops()
+                    else:
+                        end_offset = max(op.offset for r in routine_ops + returned_routine_ops for op in r) + 1
+                    if source_map_builder is not None:
+                        source_map_builder.copy_opcode(conditional_jumps[0].offset, end_offset)
+                    routine.append(SsbOperation(end_offset, SsbOpCode(-1, OP_DUMMY_END), []))
+                    break
                 # Remove the label
                 del routine[-1]
                 # Replace the jumps to it with returns
